@@ -45,6 +45,9 @@ type Case struct {
 	SegSize int     `json:"seg"`
 	Ops     []FOp   `json:"ops"`
 	Faults  []Fault `json:"faults"`
+	// EndCrash: "" = the history ends with a clean Close; "none"/"all" = it ends with a power loss
+	// (no call in flight) in which none/all of the still un-synced bytes reach the disk
+	EndCrash string `json:"endCrash,omitempty"`
 }
 
 var faultKinds = []simfs.Kind{simfs.KWriteAt, simfs.KWriteAt, simfs.KSyncFile, simfs.KSyncFile, simfs.KSyncDir, simfs.KCreate, simfs.KCreate, simfs.KUnlink,
@@ -88,6 +91,7 @@ func genCase(t *rapid.T) Case {
 		}
 		c.Faults = append(c.Faults, f)
 	}
+	c.EndCrash = rapid.SampledFrom([]string{"", "", "", "none", "all"}).Draw(t, "endCrash")
 	return c
 }
 
@@ -131,6 +135,7 @@ func genTruncCase(t *rapid.T) Case {
 		f.Partial = rapid.SampledFrom([]int{0, 0, 8, 16, 1000}).Draw(t, "partial")
 	}
 	c.Faults = []Fault{f}
+	c.EndCrash = rapid.SampledFrom([]string{"", "", "", "none", "all"}).Draw(t, "endCrash")
 	return c
 }
 
@@ -530,7 +535,19 @@ func (e *env) run(in *injector) *common.Failure {
 	} else {
 		e.opCounts = append(e.opCounts, e.fs.Counts())
 	}
-	if f := reopen(len(e.c.Ops)); f != nil {
+	if in != nil && e.c.EndCrash != "" && e.w != nil {
+		// power loss instead of a clean shutdown: whatever failed calls left un-synced may or may not
+		// survive; everything acknowledged, before or after the failures, must
+		old := e.w
+		e.fs = e.fs.PowerLoss(simfs.Tear{Mode: e.c.EndCrash, DirKeep: map[string]uint64{"none": 0, "all": ^uint64(0)}[e.c.EndCrash], LenFull: e.c.EndCrash == "all"})
+		e.w = nil
+		old.Close() // still bound to the pre-crash filesystem object
+		e.cls["history-ends-in-power-loss"] = true
+		if f := reopen(len(e.c.Ops)); f != nil {
+			f.Sig = "after-power-loss/" + f.Sig
+			return f
+		}
+	} else if f := reopen(len(e.c.Ops)); f != nil {
 		return f
 	}
 	// and once more: the first Open after a fault may itself repair things (complete a rotation,
